@@ -93,6 +93,7 @@ type interp struct {
 	atomCache map[int32][]*Term
 	zlibWs    map[*value]*zlibW
 	zlibRs    map[*value]*zlibR
+	pools     map[*value][]value // sync.Pool contents (per path)
 	inVerifrt int
 	curInstr  ssa.Instruction
 	curPos    string
